@@ -79,6 +79,19 @@ PROPS["C19"] = dict(
     note="Trusted: analyze_pending's count (bounded partition check), find_glob_violations, SQLite, solvers, pyvc.",
 )
 
+PROPS["C20"] = dict(
+    modules=["contracts.C20_paths", "contracts.C13_label"],
+    decided=["translate / translate_back designate the same file (lexical resolution) for relative and absolute paths and "
+             "work directories; results are normalised; a normalised root-relative path is unchanged; affixes are "
+             "extracted and re-applied exactly; command_and_workdir inverts adjust_label"],
+    undecided=["symbolic links in directories crossed by '..' (lexical resolution only)"],
+    assumptions=["posixpath contracts POSIX_AXIOMS (validated bounded)", "the director's working directory is the project root"],
+    level="The real translate / translate_back / get_affixes / apply_affixes are executed symbolically; path algebra "
+          "is expressed through an uninterpreted resolution function with the assumed contracts of posixpath, each of "
+          "which is validated exhaustively on small paths against CPython.",
+    note="Trusted: posixpath contracts (bounded validation), path.Path delegating to posixpath, solvers, pyvc.",
+)
+
 NOT_BUILT = {}
 
 _loaded = False
